@@ -18,6 +18,7 @@ import (
 	"bytes"
 	"context"
 	"fmt"
+	"io"
 
 	"git.apache.org/thrift.git/lib/go/thrift"
 )
@@ -82,12 +83,72 @@ func ThriftUnmarshal(data []byte, v interface{}) error {
 	switch s := v.(type) {
 	case thrift.TStruct:
 		trans := &tMemoryBuffer{bytes.NewBuffer(data)}
-		p := thrift.NewTBinaryProtocol(trans, false, false)
+		p := &boundedBinaryProtocol{thrift.NewTBinaryProtocol(trans, false, false), trans}
 		return s.Read(p)
 	case nil, *struct{}, struct{}:
 		return nil
 	}
 	return fmt.Errorf("thrift codec: %T does not implement thrift.TStruct", v)
+}
+
+// boundedBinaryProtocol is the binary protocol over an in-memory buffer that
+// rejects announced lengths and element counts exceeding the bytes left in
+// the buffer, so that a short body cannot make the decoder allocate what it
+// merely announces.
+type boundedBinaryProtocol struct {
+	*thrift.TBinaryProtocol
+	trans *tMemoryBuffer
+}
+
+func (p *boundedBinaryProtocol) checkSize(size int) error {
+	if size < 0 || uint64(size) > p.trans.RemainingBytes() {
+		return thrift.NewTProtocolExceptionWithType(thrift.SIZE_LIMIT,
+			fmt.Errorf("thrift codec: announced size %d exceeds the %d bytes left", size, p.trans.RemainingBytes()))
+	}
+	return nil
+}
+
+func (p *boundedBinaryProtocol) ReadBinary() ([]byte, error) {
+	size, err := p.ReadI32()
+	if err != nil {
+		return nil, err
+	}
+	if err = p.checkSize(int(size)); err != nil {
+		return nil, err
+	}
+	buf := make([]byte, size)
+	if _, err = io.ReadFull(p.trans, buf); err != nil {
+		return nil, thrift.NewTProtocolException(err)
+	}
+	return buf, nil
+}
+
+func (p *boundedBinaryProtocol) ReadMapBegin() (kType, vType thrift.TType, size int, err error) {
+	kType, vType, size, err = p.TBinaryProtocol.ReadMapBegin()
+	if err == nil {
+		err = p.checkSize(size)
+	}
+	return
+}
+
+func (p *boundedBinaryProtocol) ReadListBegin() (elemType thrift.TType, size int, err error) {
+	elemType, size, err = p.TBinaryProtocol.ReadListBegin()
+	if err == nil {
+		err = p.checkSize(size)
+	}
+	return
+}
+
+func (p *boundedBinaryProtocol) ReadSetBegin() (elemType thrift.TType, size int, err error) {
+	elemType, size, err = p.TBinaryProtocol.ReadSetBegin()
+	if err == nil {
+		err = p.checkSize(size)
+	}
+	return
+}
+
+func (p *boundedBinaryProtocol) Skip(fieldType thrift.TType) error {
+	return thrift.SkipDefaultDepth(p, fieldType)
 }
 
 // tMemoryBuffer buffer-based implementation of the TTransport interface.
